@@ -72,6 +72,7 @@ func (h *huffmanOnly) encodeBlock(final bool, flush bool) error {
 		return nil
 	}
 
+	h.verifBlock()
 	bytesFreq(&h.hist, h.buffer[:h.offset])
 	h.hist.reduceCounts()
 	h.hist.literalCodes[256] = 1
